@@ -219,6 +219,8 @@ def gen(seed, profile='general', big=False):
                     'ingest_demand': rng.randint(1, max_ingest),
                     'wf': i})
         t = max(t, start + dur)
+    if rng.random() < P.get('zero_rate', 0.06):
+        rng.choice(obs)['data_product_rate'] = 0          # an observation that produces no data (legal)
     if P.get('subarray') or rng.random() < 0.3:
         # overlapping sub-array observations: demands that fit together
         for o in obs:
@@ -239,8 +241,13 @@ def gen(seed, profile='general', big=False):
     else:
         hot_cap = int(vmax / rng.choice([0.65, 0.8, 0.95]))
     hot_cap = max(hot_cap, vmax + 1)
+    huge = rng.random() < P.get('huge_caps', 0.05)
     cregime = pick('cold', {'ample': 75, 'tight': 25})
     cold_cap = vsum + rng.randint(0, vsum) if cregime == 'ample' else vmax + rng.randint(0, max(1, vsum - vmax))
+    if huge:
+        # capacities of the order of the shipped configurations (5e11): data held is a 1e-10 fraction
+        hot_cap *= 10 ** 10
+        cold_cap *= 10 ** 10
     for o in obs:
         del o['_s'], o['_d']
     if rng.random() < P.get('shuffle_plan', 0.25):
@@ -384,7 +391,7 @@ PROFILES = {
               'buffer': {'ample': 95, 'wait': 5}, 'monitor': 'real',
               'dur': {1: 25, 2: 30, 3: 25, 4: 20}, 'unit': {'seconds': 90, 'custom': 10},
               'dists': ['normal', 'normal', 'poisson', 'uniform']},
-    'units': {'unit': {'custom': 60, 'minutes': 20, 'hours': 20}, 'hetero': 0.0, 'frac_start': 0.0, 'big_units': 0.4,
+    'units': {'unit': {'custom': 60, 'minutes': 20, 'hours': 20}, 'hetero': 0.0, 'frac_start': 0.0, 'big_units': 0.4, 'zero_rate': 0.0,
               'comp': {1: 40, 2: 30, 3: 20, 4: 10},
               'dur': {1: 40, 2: 35, 3: 25}, 'buffer': {'ample': 95, 'wait': 5},
               'nobs': {1: 45, 2: 40, 3: 15}, 'ntasks': {1: 25, 2: 30, 3: 25, 4: 20},
